@@ -46,7 +46,9 @@ def build(tmp, n, edges, res_edges, always, failing, creation_order):
         if any(a == k for a, _ in res_edges):
             j.command('echo x > %s' % j.ofile)
     for a, c in res_edges:
-        jobs[c].command('cat %s > /dev/null' % jobs[a].ofile)
+        # an always-run consumer of a skipped producer finds no file: that must not make it fail by itself (the scenario's
+        # failing set is the only source of failures, otherwise the oracle below would have to model the shell)
+        jobs[c].command('(cat %s > /dev/null 2>&1 || true)' % jobs[a].ofile)
     for k in failing:
         jobs[k].command('exit 1')
     for a, c in edges:
